@@ -1,5 +1,6 @@
 import Hertz.Driver.Core
 import Hertz.Model.Http1.Stream
+import Hertz.Model.Http1.StreamX
 namespace Hertz.Driver.C14
 open Hertz Hertz.Driver Hertz.H1 Hertz.H1.Stream
 
@@ -49,32 +50,131 @@ def specOk (impl : List String) : Bool :=
    | "S" :: n :: t => !(seenUris n.toNat! t).contains (encHex "/smuggled".toUTF8.toList)
    | _ => false)
 
+/-! ### `sservex`: idle style, mid-stream read time-outs, ground truth of the generator -/
+
+structure SeenTok where
+  uri : String
+  got : String
+  eof : Bool
+  err : Bool
+
+def seenToks : Nat → List String → List SeenTok × List String
+  | 0, t => ([], t)
+  | n + 1, _m :: u :: _s :: b :: e :: x :: t =>
+    let (l, r) := seenToks n t
+    ({ uri := u, got := b, eof := e == "1", err := x == "1" } :: l, r)
+  | _, t => ([], t)
+
+/-- statuses of the final (non-1xx) responses -/
+def respStatuses : Nat → List String → List Nat
+  | 0, _ => []
+  | n + 1, st :: _cl :: _b :: t => if st.toNat! < 200 then respStatuses n t else st.toNat! :: respStatuses n t
+  | _, _ => []
+
+/-- what the generator knows by construction about a stream it built from complete messages:
+the requests in order (target, body) and how many of them arrive whole before the first
+time-out / the end of a truncated stream -/
+structure Truth where
+  nclean : Nat
+  reqs : List (String × String)   -- hex target, hex body
+
+def parseTruth (t : String) : Option Truth :=
+  if t == "-" then none else
+  match t.splitOn ";" with
+  | [n, l] =>
+    some { nclean := n.toNat!,
+           reqs := (l.splitOn ",").filterMap (fun p => match p.splitOn ":" with | [u, b] => some (u, b) | _ => none) }
+  | _ => none
+
+def hexPrefix (a b : String) : Bool :=
+  a == "-" || (b != "-" && a.toList.isPrefixOf b.toList)
+
+def allIdx (p : Nat → Nat → Bool) : Nat → List Nat → Bool
+  | _, [] => true
+  | i, x :: t => p i x && allIdx p (i + 1) t
+
+/-- C14 stated on the implementation's output against the generator's ground truth, without the model:
+(1) the requests handed to handlers are, in order, an initial run of the requests really sent - so no
+request is ever taken from body bytes, and the next request is parsed from the first byte behind the
+body or not at all; (2) what each handler read is a prefix of that request's body, end-of-stream is
+reported only with the whole body read; (3) every final response belongs to a request really sent,
+and a request that arrived whole before any time-out is answered 200 if at all (an error answer to
+it would mean that bytes in front of it were taken for a message). -/
+def truthOk (bodies : Bool) (impl : List String) (t : Truth) : Bool :=
+  match impl with
+  | "S" :: n :: rest =>
+    let (seen, rest) := seenToks n.toNat! rest
+    let pairs := seen.zip t.reqs
+    seen.length ≤ t.reqs.length &&
+    pairs.all (fun (s, r) => s.uri == r.1 && (!bodies || (hexPrefix s.got r.2 && (!s.eof || (s.got == r.2 && !s.err))))) &&
+    (match rest with
+     | "R" :: m :: rs =>
+       let sts := respStatuses m.toNat! rs
+       sts.length ≤ t.reqs.length && allIdx (fun i st => i ≥ t.nclean || st == 200) 0 sts
+     | _ => false)
+  | _ => false
+
+def parseOffsets (s : String) : List Nat :=
+  if s == "-" || s == "" then [] else (s.splitOn ",").map String.toNat!
+
+/-- shared by `sserve` (in-loop idle wait, no time-outs) and `sservex` -/
+def judge (evs : List SEv) (cfg : Cfg) (endK : String) (pfx : String) (impl : List String) (truth : Option Truth)
+    (retries : Nat := 0) : Result :=
+  let t1 := tokens evs none
+  let namb := (evs.filter (fun e => match e with | .maybeClosed => true | _ => false)).length
+  let cands := (List.range namb).map (fun k => tokens evs (some k))
+  let nreq := (evs.filter (fun e => match e with | .req _ => true | _ => false)).length
+  let amb := evs.any (fun e => match e with | .maybeClosed => true | _ => false)
+  let specAll := specOk impl && (match truth with | some t => truthOk true impl t | none => true)
+  -- a handler that calls Read again after a failed Read: the model follows the stream up to the first failed Read
+  -- (the position in the stream is lost there); when that happens it has no opinion on what the retries return
+  let retried := retries > 0 && evs.any (fun e => match e with | .req r => r.got.err | _ => false)
+  if retried then
+    -- Known finding: `bodyStream.Read` remembers the first error for `skipRest` but does not return it again; a
+    -- further Read goes on parsing chunk framing from the lost position (end-of-stream in the middle of the body).
+    -- The connection is closed afterwards all the same (clauses (1) and (3) still have to hold).
+    let seqOk := specOk impl && (match truth with | some t => truthOk false impl t | none => true)
+    { out := impl, spec := specAll, cls := (if specAll then "" else if seqOk then "stream-read-after-error" else ""),
+      specNote := "Read called again after a failed Read: still only a prefix of the body, end-of-stream only at its end; connection in sync or closed",
+      tag := pfx ++ ":retry:" ++ boolTok specAll ++ (if endK == "stall" then "S" else "E") }
+  else
+  -- Known finding: with a fixed-length body LARGER than MaxRequestBodySize the prefetch of the real code
+  -- (`readBodyIdentity`) takes whatever is buffered, also bytes behind the body; what happens then depends on the
+  -- buffering and on the capacity of the pooled body buffer, so the model (prefetch = min(length, limit, 8 KiB), the
+  -- behaviour the repo's own tests rule out repairing) serves as the specification for such requests.
+  let oversize := evs.any (fun e => match e with | .req r => r.head.cl > (cfg.maxBody : Int) | _ => false)
+  if oversize then
+    let ok := impl == t1 || cands.contains impl
+    { out := impl, spec := ok && specAll, cls := (if ok && specAll then "" else "stream-oversize-prefetch"),
+      specNote := "body longer than the limit, streaming: the handler must see only body bytes and the connection must stay in sync",
+      tag := pfx ++ ":oversize:" ++ boolTok ok ++ (if endK == "stall" then "S" else "E") }
+  else
+    { out := if cands.contains impl then impl else t1, spec := specAll,
+      specNote := "no panic/hang; no request taken from body bytes; handlers see an initial run of the requests sent, each a prefix of its body",
+      tag := pfx ++ ":" ++ toString (min nreq 4) ++ boolTok amb ++ (if endK == "stall" then "S" else "E") ++
+             boolTok (evs.any (fun e => match e with | .req r => r.got.eof | _ => false)) ++
+             boolTok (evs.any (fun e => match e with | .req r => r.got.err | _ => false)) ++
+             boolTok (evs.any (fun e => match e with | .req r => r.streamed && r.head.cl == -1 | _ => false)) }
+
+def mkCfg (flags maxBody : String) : Cfg :=
+  { disableNorm := flags.contains 'n', disableKeepalive := flags.contains 'k', maxBody := (if maxBody.toNat! = 0 then 4194304 else maxBody.toNat!) }
+
 def handle : Handler
   | ["sserve", flags, maxBody, endK, stream, _cuts, readSize, stopAfter], impl => do
     let s ← hx stream
-    let cfg : Cfg := { disableNorm := flags.contains 'n', disableKeepalive := flags.contains 'k', maxBody := (if maxBody.toNat! = 0 then 4194304 else maxBody.toNat!) }
+    let cfg := mkCfg flags maxBody
     let e := if endK == "stall" then End.stall else End.eof
     let evs := serveStream cfg e { readSize := readSize.toNat!, stopAfter := stopAfter.toNat! } s
-    let t1 := tokens evs none
-    let namb := (evs.filter (fun e => match e with | .maybeClosed => true | _ => false)).length
-    let cands := (List.range namb).map (fun k => tokens evs (some k))
-    let nreq := (evs.filter (fun e => match e with | .req _ => true | _ => false)).length
-    let amb := evs.any (fun e => match e with | .maybeClosed => true | _ => false)
-    -- Known finding: with a fixed-length body LARGER than MaxRequestBodySize the prefetch of the real code
-    -- (`readBodyIdentity`) takes whatever is buffered, also bytes behind the body; what happens then depends on the
-    -- buffering and on the capacity of the pooled body buffer, so the model (prefetch = min(length, limit, 8 KiB), the
-    -- behaviour the repo's own tests rule out repairing) serves as the specification for such requests.
-    let oversize := evs.any (fun e => match e with | .req r => r.head.cl > (cfg.maxBody : Int) | _ => false)
-    if oversize then
-      let ok := impl == t1 || cands.contains impl
-      return { out := impl, spec := ok && specOk impl, cls := (if ok && specOk impl then "" else "stream-oversize-prefetch"),
-               specNote := "body longer than the limit, streaming: the handler must see only body bytes and the connection must stay in sync",
-               tag := "sserve:oversize:" ++ boolTok ok ++ (if endK == "stall" then "S" else "E") }
-    pure { out := if cands.contains impl then impl else t1, spec := specOk impl, specNote := "no panic/hang; no request taken from body bytes",
-           tag := "sserve:" ++ toString (min nreq 4) ++ boolTok amb ++ (if endK == "stall" then "S" else "E") ++
-                  boolTok (evs.any (fun e => match e with | .req r => r.got.eof | _ => false)) ++
-                  boolTok (evs.any (fun e => match e with | .req r => r.got.err | _ => false)) ++
-                  boolTok (evs.any (fun e => match e with | .req r => r.streamed && r.head.cl == -1 | _ => false)) }
+    pure (judge evs cfg endK "sserve" impl none)
+  | ["sservex", mode, flags, maxBody, endK, stream, _cuts, tmos, readSize, stopAfter, retries, truth], impl => do
+    let s ← hx stream
+    let cfg := mkCfg flags maxBody
+    let e := if endK == "stall" then End.stall else End.eof
+    let tm := parseOffsets tmos
+    let evs := serveStreamX cfg (mode == "poll") e { readSize := readSize.toNat!, stopAfter := stopAfter.toNat! } tm s
+    -- did a time-out fall inside the stream, and where: head / body of a request the model got to
+    let nseg := (splitAt s 0 tm).length
+    pure (judge evs cfg endK ("sservex:" ++ mode ++ ":t" ++ toString (min nseg 3)) impl (parseTruth truth) retries.toNat!)
   | _, _ => none
 
 end Hertz.Driver.C14
